@@ -3,6 +3,7 @@ package main
 import (
 	"fmt"
 	"reflect"
+	"strconv"
 	"strings"
 	"time"
 
@@ -147,8 +148,104 @@ func reifyRoundCase(r *Rng, t *tyNode) (Case, bool) {
 		Tags: []string{"round"}, Nontrivial: true}, true
 }
 
+// hand-written targets with hooks (the model does not cover hooks; the before/after
+// observations are evaluated by the atomicity property)
+type vRange struct {
+	Min  int    `config:"min"`
+	Max  int    `config:"max"`
+	Name string `config:"name"`
+}
+
+func (v *vRange) Validate() error {
+	if v.Min > v.Max {
+		return fmt.Errorf("min > max")
+	}
+	return nil
+}
+
+type vOuter struct {
+	Label string  `config:"label"`
+	R     vRange  `config:"r"`
+	P     *vRange `config:"p"`
+	Keep  int     `config:"keep,ignore"`
+}
+
+func (v *vOuter) Validate() error {
+	if v.Label == "forbidden" {
+		return fmt.Errorf("forbidden label")
+	}
+	return nil
+}
+
+var vRangeTy = &tyNode{Kind: "struct", Fields: []tyField{
+	{"Min", "min", "", &tyNode{Kind: "prim", Prim: primKinds[1]}},
+	{"Max", "max", "", &tyNode{Kind: "prim", Prim: primKinds[1]}},
+	{"Name", "name", "", &tyNode{Kind: "prim", Prim: primKinds[9]}}}}
+var vOuterTy = &tyNode{Kind: "struct", Fields: []tyField{
+	{"Label", "label", "", &tyNode{Kind: "prim", Prim: primKinds[9]}},
+	{"R", "r", "", vRangeTy},
+	{"P", "p", "", &tyNode{Kind: "ptr", Elem: vRangeTy}},
+	{"Keep", "keep,ignore", "", &tyNode{Kind: "prim", Prim: primKinds[1]}}}}
+
+func hookedCases(g *Gen) {
+	r := g.R
+	for i := 0; i < 40; i++ {
+		mk := func() vRange { return vRange{r.Intn(5), 5 + r.Intn(5), []string{"a", "b"}[r.Intn(2)]} }
+		cfgR := map[string]interface{}{}
+		if r.Bool() {
+			cfgR["min"] = int64(r.Intn(20))
+		}
+		if r.Bool() {
+			cfgR["max"] = int64(r.Intn(8))
+		}
+		if r.Bool() {
+			cfgR["name"] = "n"
+		}
+		// (a) the top-level struct's own Validate
+		{
+			x := mk()
+			c, _ := ucfg.NewFrom(cfgR)
+			old := coqGV(vRangeTy, reflect.ValueOf(x))
+			oldD := fmt.Sprint(x)
+			var err error
+			p, pm := guard(func() { err = c.Unpack(&x) })
+			obs, d := uobs(vRangeTy, reflect.ValueOf(x), err, p, pm)
+			g.Add(Case{Coq: fmt.Sprintf("CHooked %s %s %s %s %s", coqStr("vRange"), vRangeTy.coq(), old, obs, coqGV(vRangeTy, reflect.ValueOf(x))),
+				Desc: map[string]interface{}{"kind": "hooked", "type": "vRange (Validate: min <= max)", "prefilled": oldD, "config": descTree(cfgR), "observed": d, "after": fmt.Sprint(x)},
+				Tags: []string{"hooked:vRange"}, Nontrivial: true})
+		}
+		// (b) nested and behind a pointer
+		{
+			pr := mk()
+			x := vOuter{Label: "l", R: mk(), P: &pr, Keep: 7}
+			if r.Bool() {
+				x.P = nil
+			}
+			cfgO := map[string]interface{}{"r": cfgR}
+			if r.Bool() {
+				cfgO["p"] = cfgR
+			}
+			if r.P(1, 4) {
+				cfgO["label"] = "forbidden"
+			}
+			c, _ := ucfg.NewFrom(cfgO)
+			old := coqGV(vOuterTy, reflect.ValueOf(x))
+			oldD := fmt.Sprintf("%+v", x)
+			var err error
+			p, pm := guard(func() { err = c.Unpack(&x) })
+			obs, d := uobs(vOuterTy, reflect.ValueOf(x), err, p, pm)
+			g.Add(Case{Coq: fmt.Sprintf("CHooked %s %s %s %s %s", coqStr("vOuter"), vOuterTy.coq(), old, obs, coqGV(vOuterTy, reflect.ValueOf(x))),
+				Desc: map[string]interface{}{"kind": "hooked", "type": "vOuter (Validate hooks on it and on its vRange members)", "prefilled": oldD, "config": descTree(cfgO), "observed": d, "after": fmt.Sprintf("%+v", x)},
+				Tags: []string{"hooked:vOuter"}, Nontrivial: true})
+		}
+	}
+}
+
 func genReify(g *Gen, mode string) {
 	r := g.R
+	if mode == "C13" || mode == "C04" {
+		hookedCases(g)
+	}
 	tcfg := typeGenCfg{Validators: mode == "C04" || mode == "C13", Handling: mode == "C13" || mode == "C04", Inline: true, Ifaces: mode != "C06", CfgPtr: mode != "C06" && mode != "C14"}
 	for i := 0; i < g.N; i++ {
 		t := randStruct(r, 0, tcfg)
@@ -305,11 +402,51 @@ func reifyFaultCase(r *Rng, t *tyNode) (Case, bool) {
 		}
 	}
 	f := faults[r.Intn(len(faults))]
+	valid := deepCopy(cfgData).(map[string]interface{})
 	f.apply()
 	source := "conf.d/base.yml"
 	cfg, err := ucfg.NewFrom(cfgData, ucfg.PathSep("."), ucfg.MetaData(ucfg.Meta{Source: source}))
 	if err != nil {
 		return Case{}, false
+	}
+	// sometimes the faulty list entry is moved by a later prepend merge: the error must name
+	// the position the setting has in the final config
+	mergedTag := "built:once"
+	if segs := strings.Split(f.path, "."); r.P(1, 2) {
+		for i, sg := range segs {
+			if idx, err := strconv.Atoi(sg); err == nil && i > 0 {
+				lst, ok := lookupDotted(valid, segs[:i]).([]interface{})
+				if !ok || len(lst) == 0 {
+					break
+				}
+				k := 1 + r.Intn(2)
+				extra := make([]interface{}, k)
+				for j := range extra {
+					extra[j] = deepCopy(lst[r.Intn(len(lst))])
+				}
+				d2 := map[string]interface{}{}
+				setDotted(d2, strings.Join(segs[:i], "."), extra)
+				// the pair must stay valid apart from the injected fault (e.g. no fixed-size array grows)
+				{
+					vc, verr := ucfg.NewFrom(valid, ucfg.PathSep("."))
+					if verr != nil || vc.Merge(deepCopy(d2), ucfg.PathSep("."), ucfg.PrependValues) != nil {
+						break
+					}
+					vt := reflect.New(t.goType())
+					var uerr error
+					if p, _ := guard(func() { uerr = vc.Unpack(vt.Interface(), ucfg.PathSep(".")) }); p || uerr != nil {
+						break
+					}
+				}
+				if merr := cfg.Merge(d2, ucfg.PathSep("."), ucfg.PrependValues, ucfg.MetaData(ucfg.Meta{Source: source})); merr != nil {
+					return Case{}, false
+				}
+				segs[i] = strconv.Itoa(idx + k)
+				f.path = strings.Join(segs, ".")
+				mergedTag = "built:prepend-merge"
+				break
+			}
+		}
 	}
 	target := reflect.New(t.goType())
 	var uerr error
@@ -335,5 +472,43 @@ func reifyFaultCase(r *Rng, t *tyNode) (Case, bool) {
 	collectFloats(cfgData, &fl)
 	coq := fmt.Sprintf("CFault %s %s %s %s %s %s %s", coqRopts(0, durs, fl), t.coq(), coqValue(ucfg.VerifDump(cfg)), coqStr(f.path), coqStr(source), obs, coqStr(msg))
 	return Case{Coq: coq, Desc: map[string]interface{}{"kind": "fault", "type": t.desc(), "config": descTree(cfgData), "fault": f.kind, "fault_path": f.path, "observed": d, "message": msg, "typed": typed},
-		Tags: []string{"fault:" + f.kind}, Nontrivial: true}, true
+		Tags: []string{"fault:" + f.kind, mergedTag}, Nontrivial: true}, true
+}
+
+func deepCopy(t interface{}) interface{} {
+	switch x := t.(type) {
+	case map[string]interface{}:
+		m := make(map[string]interface{}, len(x))
+		for k, v := range x {
+			m[k] = deepCopy(v)
+		}
+		return m
+	case []interface{}:
+		l := make([]interface{}, len(x))
+		for i, v := range x {
+			l[i] = deepCopy(v)
+		}
+		return l
+	}
+	return t
+}
+
+// lookupDotted follows name and index segments through maps and lists.
+func lookupDotted(t interface{}, segs []string) interface{} {
+	cur := t
+	for _, sg := range segs {
+		switch x := cur.(type) {
+		case map[string]interface{}:
+			cur = x[sg]
+		case []interface{}:
+			i, err := strconv.Atoi(sg)
+			if err != nil || i < 0 || i >= len(x) {
+				return nil
+			}
+			cur = x[i]
+		default:
+			return nil
+		}
+	}
+	return cur
 }
